@@ -52,6 +52,21 @@ fn c12_color_hwba_hsla_eq_symmetric() {
     assert!((a == b) == (b == a), "hwb == hsl is symmetric");
     assert!(a.cmp(&b) == b.cmp(&a).reverse(), "hwb cmp hsl is antisymmetric");
 }
+/// C12: the same law on concrete probe colors (the symbolic version above
+/// exceeds 15 minutes): hwb(0 30% 10%) and hsl(0, 75%, 60%) denote the same
+/// color up to conversion rounding; whatever `==` says must not depend on
+/// which one is on the left.
+#[kani::proof]
+#[kani::stub(crate::value::colors::hsla::deg_mod, crate::value::colors::hsla::kani_verif::deg_mod_by_contract)]
+fn c12_color_hwba_hsla_eq_symmetric_probe() {
+    let a = Color::Hwba(Hwba::new(0.0, 0.3, 0.1, 1.0));
+    let b = Color::Hsla(Hsla::new(0.0, 0.75, 0.6, 1.0, true));
+    assert!((a == b) == (b == a), "hwb == hsl is symmetric (probe pair)");
+    assert!(a.cmp(&b) == b.cmp(&a).reverse(), "hwb cmp hsl is antisymmetric (probe pair)");
+    let c = Color::Hwba(Hwba::new(210.0, 0.2, 0.4, 1.0));
+    let d = Color::Hsla(Hsla::new(210.0, 0.5, 0.4, 1.0, false));
+    assert!((c == d) == (d == c), "hwb == hsl is symmetric (second probe pair)");
+}
 /// C12: same for an rgb and an hsl color.
 #[kani::proof]
 #[kani::stub(crate::value::colors::hsla::deg_mod, crate::value::colors::hsla::kani_verif::deg_mod_by_contract)]
